@@ -13,7 +13,7 @@ Definition crash_atomic_for (mk : path -> str -> list op) : Prop :=
 Definition ex_path : path := [97].                     (* "a" *)
 Definition ex_old : str := [111; 108; 100].            (* "old" *)
 Definition ex_new : str := [110; 101; 119; 101; 114].  (* "newer" *)
-Definition ex_state : state := mkstate [(ex_path, mkfile ex_old 420)] [] 18.
+Definition ex_state : state := mkstate [(ex_path, mkfile KReg ex_old 420)] [] 18.
 
 Lemma refute_at (mk : path -> str -> list op) (k : nat) :
   (match lookup ex_path (st_fs (exec (firstn k (mk ex_path ex_new)) ex_state)) with
@@ -24,7 +24,7 @@ Lemma refute_at (mk : path -> str -> list op) (k : nat) :
 Proof.
   intros Hbad H.
   specialize (H ex_state ex_path ex_new (firstn k (mk ex_path ex_new)) eq_refl (crash_prefix _ k)).
-  destruct (H ex_path (mkfile ex_old 420) eq_refl) as [f1 [Hl Hin]].
+  destruct (H ex_path (mkfile KReg ex_old 420) eq_refl) as [f1 [Hl Hin]].
   rewrite Hl in Hbad.
   assert (E : existsb (str_eqb (f_data f1)) [ex_old; ex_new] = true).
   { apply existsb_exists. exists (f_data f1). split.
